@@ -18,6 +18,7 @@ logger = Log(__name__)
 logger.debug("loading module")
 from amoco.ui import render
 import operator
+from copy import copy as _shallowcopy
 
 
 # decorators:
@@ -122,13 +123,29 @@ class exp(object):
 
     def signed(self):
         "consider expression as signed"
-        self.sf = True
-        return self
+        if self.sf:
+            return self
+        # the flag is part of the expression's meaning: it is set on a
+        # (shallow) copy so that other holders of this object (a register
+        # shared by a whole architecture module, a value stored in a map)
+        # keep the meaning they had.
+        res = self._flagcopy()
+        res.sf = True
+        return res
 
     def unsigned(self):
         "consider expression as unsigned"
-        self.sf = False
-        return self
+        if not self.sf:
+            return self
+        res = self._flagcopy()
+        res.sf = False
+        return res
+
+    def _flagcopy(self):
+        # a composite owns its (mutable) table of parts:
+        if self._is_cmp:
+            return self.copy()
+        return _shallowcopy(self)
 
     @property
     def length(self):  # length value is in bytes
